@@ -92,7 +92,7 @@ class HaScn:
                     self.ev.append(dict(e="Sub", i=int(f["s"]) + 1, q=q, k="resp" if st == 3 else "err", err=f.get("err")))
         line = [l for l in out if l.startswith("R run")][-1]
         f = netsim.kv(line)
-        ev = dict(e="Run", t="none", q=0, state="-", waiting=int(f["waiting"]))
+        ev = dict(e="Run", t="none", q=0, state="-", ep=0, waiting=int(f["waiting"]))
         if f["h"] != "-":
             st = int(f["state"])
             ev["q"] = max(int(f["h"]), 0)
@@ -102,7 +102,7 @@ class HaScn:
             elif st == 5:
                 ev["t"] = "req"; ev["state"] = "error"
             elif st == 6:
-                ev["t"] = "notice"; ev["state"] = "notice"
+                ev["t"] = "notice"; ev["state"] = "notice"; ev["ep"] = int(f.get("pep", 0))
             elif st == 4:
                 ev["t"] = "conf"; ev["state"] = "conf"
         self.ev.append(ev)
